@@ -344,6 +344,8 @@ def normalize(scn, raw):
             else:
                 kind = "raised"
             out.append({"e": "AcceptRet", "r": e["r"], "kind": kind, "cause": e.get("cause_p") or "-", "exc": e.get("exc", ""), "cause_kind": e.get("cause_kind", "")})
+        elif n == "sr.svc.exit" and owner.get(i) == 1 or (n == "sr.svc.exit" and owner.get(i) is None and not any(x["e"] == "accept.call" and x.get("r", 1) > 1 for x in ev[:i])):
+            out.append({"e": "SvcLoopExit"})
         elif n == "sigint.send":
             out.append({"e": "Sigint"})
         elif n in ("shutdown.call", "teardown.begin"):
